@@ -1,3 +1,6 @@
 //! Independent reference models ("boring on purpose"). No dependency on the subject.
 pub mod alu;
+pub mod asm;
 pub mod isa;
+pub mod mrasm;
+pub mod peg;
